@@ -15,7 +15,13 @@ CONCLUSIVE_FLOOR = {"quick": 60, "thorough": 150}
 DERIV_BUILDERS = ["Dense", "Toeplitz", "Diag", "ConstantDiag", "KroneckerDiag", "Kronecker", "ConstantMul", "Matmul", "Mul", "Sum", "BlockDiag",
                   "BlockInterleaved", "SumBatch", "BatchRepeat", "Masked", "Interpolated", "Root", "LowRankRoot", "AddedDiag", "LowRankRootAddedDiag",
                   "Kernel", "KernelScalarParam", "CatRows", "TriangularLower", "CholLower", "Sum(Kron,ConstantMul)", "Interp(Toeplitz)",
-                  "ConstantMul(BlockInterleaved)", "SumBatch(Toeplitz)", "BatchRepeat(Kron)", "Kron(Toeplitz,Diag)", "PsdSum", "DenseRect", "KroneckerRect"]
+                  "ConstantMul(BlockInterleaved)", "SumBatch(Toeplitz)", "BatchRepeat(Kron)", "Kron(Toeplitz,Diag)", "PsdSum", "DenseRect", "KroneckerRect",
+                  "ConstantMulBcast", "ConstantMulBcastLast"]
+# operators with several floating parameters: every other parameter frozen (the positional gradient tuple must still line up)
+SUBSET_BUILDERS = ["Kronecker", "ConstantMul", "Matmul", "Mul", "Sum", "Interpolated", "AddedDiag", "LowRankRootAddedDiag", "Kernel",
+                   "Sum(Kron,ConstantMul)", "Kron(Toeplitz,Diag)", "PsdSum", "KroneckerRect", "BatchRepeat(Kron)", "CatRows", "KroneckerDiag",
+                   "Interp(Toeplitz)", "ConstantMul(BlockInterleaved)"]
+SUBSET_PD = ["KroneckerPD", "AddedDiag", "LowRankRootAddedDiag", "PsdSum", "ConstantMulPos"]
 PD_BUILDERS = ["DensePD", "Diag", "ConstantDiag", "CholLower", "AddedDiag", "LowRankRootAddedDiag", "KroneckerPD", "BlockDiag", "ConstantMulPos",
                "PsdSum"]
 ENTRY = ["matmul", "to_dense", "diagonal", "getitem", "sum"]
@@ -36,6 +42,13 @@ def cells(tier, seed):
     for name in PD_BUILDERS:
         for e in PD_ENTRY:
             out.append({"id": f"{e}/{name}/b-", "params": {"group": e, "builder": name, "n": 2, "batch": []}})
+    for sub in ("skip_even", "skip_odd"):
+        for name in SUBSET_BUILDERS:
+            for e in ("bilinear", "matmul", "to_dense"):
+                out.append({"id": f"{e}/{name}/b-/{sub}", "params": {"group": e, "builder": name, "n": 2, "batch": [], "subset": sub}})
+        for name in SUBSET_PD:
+            for e in ("solve", "inv_quad", "logdet"):
+                out.append({"id": f"{e}/{name}/b-/{sub}", "params": {"group": e, "builder": name, "n": 2, "batch": [], "subset": sub}})
     return out
 
 
@@ -60,6 +73,13 @@ def compare_grads(ctx, loss_lib, loss_ref, label):
     items = [(n, t) for n, t in items if t.requires_grad]
     if not items:
         return
+    if not loss_ref.requires_grad:
+        if loss_lib.requires_grad:
+            ctx.fail(label + ":requires_grad", "the library's result requires grad although no trainable parameter enters the dense expression")
+        return
+    if not loss_lib.requires_grad:
+        ctx.fail(label + ":requires_grad", "the library's result is detached from the trainable parameters")
+        return
     ts = [t for _, t in items]
     g_lib = torch.autograd.grad(loss_lib, ts, allow_unused=True, retain_graph=True)
     g_ref = torch.autograd.grad(loss_ref, ts, allow_unused=True, retain_graph=True)
@@ -77,8 +97,10 @@ def harness(ctx):
     g = p["group"]
     batch = tuple(p["batch"])
     ctx.grad_leaves = True
+    ctx.grad_subset = p.get("subset")
     b = BUILDERS[p["builder"]]
     op, ref = b(ctx, p["n"], batch)
+    ctx.grad_subset = None  # right-hand sides etc. keep their own flags
     m, n = ref.shape[-2:]
     bs = tuple(ref.shape[:-2])
     if g == "bilinear":
@@ -94,6 +116,8 @@ def harness(ctx):
             scalar = (U * (ref @ V)).sum()  # the dense matrix the operator denotes (C01), differentiated by torch
             items = [(nm, t) for nm, t in ctx.grad_leaf_items()]
             leaves = [t for _, t in items]
+            if not leaves or not scalar.requires_grad:
+                return
             # the hand-written derivative is w.r.t. the representation tensors (which may be views / expansions of the caller's
             # leaves): push it back to the leaves with torch's chain rule, compare with AD of the dense expression
             outs, gouts = [], []
